@@ -45,3 +45,42 @@ package ciphersuite
 //@ loop #1: fits: good == 255 ==> int(paddingLen) <= len(payload)-1
 //@ loop #1: checked: good == 255 ==> forall(0, i, func(j int) bool { return j <= int(paddingLen) ==> payload[len(payload)-1-j] == paddingLen })
 //@ end
+
+// AEAD record opening (RFC 5288 / 6655 / 9146): a record is returned only if the AEAD accepted it, with
+// the nonce write_IV[:4] || explicit_nonce taken from the received bytes and the additional data
+// computed from the header parsed from the same received bytes.
+//@ assume-pure aead.nonceBufferPool
+
+//@ func aead.decrypt
+//@ watch AEAD.Open generateAEADAdditionalData generateAEADAdditionalDataCID
+//@ requires args: a.remoteAEAD != nil && len(a.remoteWriteIV) >= 4 && len(header.ConnectionID) <= 255
+//@ ensures short-rejected: len(in) < 13 ==> result1 != nil
+//@ ensures opened-or-ccs: result1 == nil ==> old(in[0]) == 20 || (called("AEAD.Open") && retErr("AEAD.Open", 1) == nil)
+//@ ensures ccs-untouched: result1 == nil && old(in[0]) == 20 ==> !called("AEAD.Open")
+//@ ensures open-once: ncalls("AEAD.Open") <= 1
+//@ ensures aad-from-received-header: called("AEAD.Open") ==> (called("generateAEADAdditionalData") || called("generateAEADAdditionalDataCID"))
+//@ ensures aad-is-what-was-built: called("AEAD.Open") && old(in[0]) != 25 ==> sameSlice(argBytes("AEAD.Open", 4), retBytes("generateAEADAdditionalData", 0))
+//@ ensures aad-cid-is-what-was-built: called("AEAD.Open") && old(in[0]) == 25 ==> sameSlice(argBytes("AEAD.Open", 4), retBytes("generateAEADAdditionalDataCID", 0))
+//@ end
+
+// CBC records (RFC 5246 6.2.3.2, MAC-then-encrypt): a record is returned only if the padding check
+// succeeded and the MAC computed over the received header fields and the plaintext equals the MAC
+// carried in the record; all slice bounds hold for every received length and padding value.
+//@ func CBC.Decrypt
+//@ watch examinePadding crypto/hmac.Equal CBC.hmac CBC.hmacCID
+//@ requires args: c.readCBC != nil && c.h != nil && len(header.ConnectionID) <= 255
+//@ ensures short-rejected: len(in) < 13 ==> result1 != nil
+//@ ensures authenticated: result1 == nil && old(in[0]) != 20 ==> called("crypto/hmac.Equal") && retBool("crypto/hmac.Equal", 0)
+//@ ensures padding-checked: result1 == nil && old(in[0]) != 20 ==> called("examinePadding") && retAs("examinePadding", 1, byte(0)) == 255
+//@ ensures mac-computed: called("crypto/hmac.Equal") ==> called("CBC.hmac") || called("CBC.hmacCID")
+//@ ensures mac-compared-is-computed: called("crypto/hmac.Equal") && old(in[0]) != 25 ==> sameSlice(argBytes("crypto/hmac.Equal", 0), retBytes("CBC.hmac", 0))
+//@ ensures ccs-untouched: result1 == nil && old(in[0]) == 20 ==> !called("examinePadding") && sameSlice(result0, in)
+//@ end
+
+//@ func CBC.hmac
+//@ noinline
+//@ end
+
+//@ func CBC.hmacCID
+//@ noinline
+//@ end
